@@ -57,6 +57,196 @@ def arms(b, ex, loop):
     return out
 
 
+class Dispatch:
+    """The command dispatch of the loop, decided by hypothesis instead of by the shape of one
+    `match`: for every command word W that the first token is compared with (directly in the loop or
+    inside an inlined classifier such as `Command::from_token`), the body is specialised under
+    "first token == W, and != every other word" (cond.specialise: the word tests are the hypothesis;
+    a classifier's enum result and the `match` on it fold to the one feasible arm).
+      spec(W)    (body, Exprs) specialised for W (None: no word matches)
+      region(W)  loop blocks that one iteration can reach under W and under no other hypothesis:
+                 the arm of W, however the dispatch is spelled
+    `words` maps W to the block of its string test."""
+
+    def __init__(self, f, b, ex, h, loop):
+        self.f, self.b, self.ex, self.h, self.loop = f, b, ex, h, loop
+        self.tests = {}
+        for s in sorted(loop):
+            if s not in b.reachable or b.term(s)["k"] != "switch":
+                continue
+            d = ex.switch_discr(s)
+            if d[0] == "bin" and d[1] == "Eq":
+                for x, k in ((strip_refs(d[2]), strip_refs(d[3])), (strip_refs(d[3]), strip_refs(d[2]))):
+                    if k[0] == "str" and _first_token(x):
+                        self.tests[k[1]] = (s, strip_refs(d))
+        self.words = {w: s for w, (s, d) in self.tests.items()}
+        self._spec = {}
+        self._reach = {}
+
+    def spec(self, word):
+        if word not in self._spec:
+            from wa.cond import specialise
+            hyp = {d: ("eq", w == word) for w, (s, d) in self.tests.items()}
+            b2, ex2, dead = specialise(self.b, hyp)
+            self._spec[word] = (b2, ex2)
+        return self._spec[word]
+
+    def reach(self, word):
+        """Blocks reachable from the header within one iteration under the hypothesis (including the
+        diverging tails: process exit, panics)."""
+        if word not in self._reach:
+            b2, _ = self.spec(word)
+            seen, st = set(), [self.h]
+            while st:
+                x = st.pop()
+                if x in seen:
+                    continue
+                seen.add(x)
+                for y in b2.succ.get(x, []):
+                    if y != self.h:
+                        st.append(y)
+            self._reach[word] = seen
+        return self._reach[word]
+
+    def region(self, word):
+        others = set()
+        for w in list(self.tests) + [None]:
+            if w != word:
+                others |= self.reach(w)
+        return self.reach(word) - others
+
+    def always_passes(self, word, blocks):
+        """Under W no iteration gets back to the header without passing one of `blocks`."""
+        b2, _ = self.spec(word)
+        blocks = set(blocks)
+        return bool(blocks) and self.h not in blocks and not b2.reaches(self.h, self.h, removed_nodes=blocks)
+
+    def extra_conditions(self, word, bb):
+        """Branch facts on the way to block bb under W that the word does not decide (switches that
+        still have two live edges in the specialised body)."""
+        from wa.cond import dominating_facts as df
+        b2, ex2 = self.spec(word)
+        out = []
+        for d, vals, excl, s2, tg in df(b2, ex2, bb):
+            if s2 in self.loop and len(b2.succ.get(s2, [])) > 1:
+                out.append(d)
+        return out
+
+
+def dispatch(f, b, ex, h, loop):
+    cache = f.__dict__.setdefault("_dispatch_cache", {})
+    key = (b.name, h)
+    if key not in cache:
+        cache[key] = Dispatch(f, b, ex, h, loop)
+    return cache[key]
+
+
+def is_state_ty(f, ty):
+    """The position, its repetition record, or a crate struct that has one of them as a field."""
+    if ty in STATE_TYPES:
+        return True
+    try:
+        return any(f.struct_field_ty(ty, fld) in STATE_TYPES for fld in f.struct_fields(ty))
+    except Exception:
+        return False
+
+
+def state_roots(f, b, h=None, loop=None):
+    """Named locals that hold the session state.  With the loop given: only those that are carried
+    from one command to the next (modified in the loop and live at its header), plus locals whose
+    value is moved, unchanged, into such a local (the by-value `board = handle(board)` shape)."""
+    named = {l: n for l, n in b.names.items() if is_state_ty(f, b.local_ty(l))}
+    if loop is None:
+        return named
+    carried = {l for l in carried_state(b, None, h, loop) if l in named}
+    moves = {}
+    for loc, st in b.iter_stmts():
+        if st["k"] == "assign" and not st["place"]["proj"] and st["rv"]["k"] == "use" and st["rv"]["op"]["k"] in ("copy", "move") and not st["rv"]["op"]["place"]["proj"]:
+            moves.setdefault(st["rv"]["op"]["place"]["local"], set()).add(st["place"]["local"])
+    out = {}
+    for l, n in named.items():
+        seen, stack = set(), [l]
+        while stack:
+            x = stack.pop()
+            if x in seen:
+                continue
+            seen.add(x)
+            stack.extend(moves.get(x, ()))
+        if seen & carried:
+            out[l] = n
+    return out
+
+
+def resolve_place(b, place):
+    """(root local, [field names]) of a MIR place, through `&mut` / `&` pointers that are
+    single-definition borrows of a local (`self` of an inlined method); None if not resolvable."""
+    from wa.mir import alias_of
+    proj = place["proj"]
+    if proj and proj[0]["k"] == "deref":
+        r, mode, pr = alias_of(b, place["local"])
+        if mode != "ref":
+            return None
+        proj = list(pr) + list(proj[1:])
+    else:
+        r = place["local"]
+    if any(e["k"] not in ("field", "downcast") for e in proj):
+        return r, [e.get("name", "?") for e in proj if e["k"] == "field"] + ["?"]
+    return r, [e["name"] for e in proj if e["k"] == "field"]
+
+
+def resolve_operand(b, o):
+    """A call argument that is a reference to (part of) a local: (root local, [field names])."""
+    al = operand_alias(b, o)
+    if not al:
+        return None
+    r, mode, pr = al
+    if mode == "val":
+        return r, []
+    if mode == "ref":
+        return r, [e["name"] for e in pr if e["k"] == "field"]
+    return None
+
+
+def path_ty(f, b, root, path):
+    ty = b.local_ty(root)
+    for fld in path:
+        try:
+            ty = f.struct_field_ty(ty, fld)
+        except Exception:
+            return None
+    return ty
+
+
+def field_mods(f, b, l, blocks):
+    """Fields of struct local l that can be modified in `blocks` ('*' = the whole value): writes to
+    `l.f` / `(*p).f`, mutable borrows of a field, `&mut l` handed to a call."""
+    out = set()
+    for bb in blocks:
+        for i, st in enumerate(b.stmts(bb)):
+            if st["k"] != "assign":
+                continue
+            rp = resolve_place(b, st["place"])
+            if rp and rp[0] == l and not (st["place"]["local"] != l and not st["place"]["proj"]):
+                if st["place"]["local"] == l or st["place"]["proj"]:
+                    out.add(rp[1][0] if rp[1] else "*")
+            rv = st["rv"]
+            if rv["k"] == "ref" and rv.get("mut"):
+                rp = resolve_place(b, rv["place"])
+                if rp and rp[0] == l and rp[1]:
+                    out.add(rp[1][0])
+        t = b.term(bb)
+        if t["k"] == "call":
+            for a in t["args"]:
+                ro = resolve_operand(b, a)
+                if ro and ro[0] == l and a.get("place") and b.local_ty(a["place"]["local"]).startswith("&mut"):
+                    out.add(ro[1][0] if ro[1] else "*")
+            d = t["dest"]
+            rp = resolve_place(b, d)
+            if rp and rp[0] == l and (d["local"] == l or d["proj"]):
+                out.add(rp[1][0] if rp[1] else "*")
+    return out
+
+
 def r16_1(ctx):
     """No hidden global state: the crate's only static is the allocator; none mutable, none with
     interior mutability, none thread-local."""
@@ -153,15 +343,62 @@ def r16_2(ctx):
     h, loop = command_loop(b, ex)
     cs = carried_state(b, ex, h, loop)
     seen_types = set()
+    shown = []
     for l, name in cs.items():
         ty = b.local_ty(l)
+        try:
+            flds = f.struct_fields(ty) if ty not in STATE_TYPES else []
+        except Exception:
+            flds = []
+        if flds and is_state_ty(f, ty):
+            # a session struct: its carried state is the set of fields the loop can modify
+            mods = field_mods(f, b, l, loop)
+            if "*" in mods:
+                mods = set(flds)
+            for fld in sorted(mods):
+                fty = f.struct_field_ty(ty, fld)
+                ok = fty in STATE_TYPES
+                seen_types.add(fty)
+                shown.append("%s.%s" % (name, fld))
+                ctx.ob("play_game_uci:carried:%s.%s" % (name, fld), ok, b.file,
+                       "`%s.%s: %s` is modified in the command loop and still live at the next command: %s" % (
+                           name, fld, fty, STATE_TYPES[fty] if ok else "state that survives from one command to the next besides the position and its repetition record — a later reply can depend on earlier traffic"))
+            continue
         ok = ty in STATE_TYPES
         seen_types.add(ty)
+        shown.append(name)
         ctx.ob("play_game_uci:carried:%s" % name, ok, b.file,
                "`%s: %s` is modified in the command loop and still live at the next command: %s" % (
                    name, ty, STATE_TYPES[ty] if ok else "state that survives from one command to the next besides the position and its repetition record — a later reply can depend on earlier traffic"))
     ctx.ob("play_game_uci:carried-state-found", "board::BoardState" in seen_types, b.file,
-           "loop-carried named locals: %s" % sorted(cs.values()), reason="below-floor", nontrivial=False)
+           "loop-carried named locals: %s" % sorted(shown), reason="below-floor", nontrivial=False)
+
+
+def _board_place(f, b, roots, rp):
+    """rp = (root, fields) names the current position: a state local (or a field of the session
+    struct) of type BoardState."""
+    return rp is not None and rp[0] in roots and "?" not in rp[1] and path_ty(f, b, rp[0], rp[1]) == "board::BoardState"
+
+
+def _becomes_board(f, b, ex, roots, bb, t, callee):
+    """The result of the call in bb is stored into the current position."""
+    if _board_place(f, b, roots, resolve_place(b, t["dest"])):
+        return True
+    for loc, st in b.iter_stmts():
+        if st["k"] == "assign" and st["place"].get("ty") == "board::BoardState" and _board_place(f, b, roots, resolve_place(b, st["place"])):
+            e = ex.rvalue(st["rv"], loc)
+            if e[0] == "call" and e[1] == callee and e[3] == b.term_loc(bb):
+                return True
+    return False
+
+
+def _contains_board(f, b, roots, ro):
+    """The referenced place is, or contains, the current position."""
+    if ro is None or ro[0] not in roots:
+        return False
+    ty = path_ty(f, b, ro[0], ro[1])
+    return ty == "board::BoardState" or (ty is not None and ty not in STATE_TYPES and is_state_ty(f, ty) and
+                                         any(f.struct_field_ty(ty, x) == "board::BoardState" for x in f.struct_fields(ty)))
 
 
 def r16_3(ctx):
@@ -170,36 +407,26 @@ def r16_3(ctx):
     b = f.body(LOOP_FN)
     ex = Exprs(b)
     h, loop = command_loop(b, ex)
-    am = arms(b, ex, loop)
-    if "position" not in am:
+    dp = dispatch(f, b, ex, h, loop)
+    if "position" not in dp.words:
         raise AnchorMissing("no `position` arm in the command dispatch")
-    s, tt, ft = am["position"]
-    pc = [(bb, t) for bb, t in b.iter_calls(callee=POP) if b.edge_dominates((s, tt), bb) or bb == tt]
+    s = dp.words["position"]
+    reg = dp.region("position")
+    pc = [(bb, t) for bb, t in b.iter_calls(callee=POP) if bb in reg]
     ctx.ob("position-arm:calls-play_out_position", len(pc) == 1, b.where(b.term_loc(s)), "%d calls of play_out_position under the `position` arm" % len(pc))
     # unconditionally: no path through the arm returns to the loop without rebuilding the position,
     # and the arm is entered on the command word alone
     if pc:
-        skip = b.reaches(tt, h, removed_nodes={bb for bb, _ in pc}) and tt not in {bb for bb, _ in pc}
+        skip = not dp.always_passes("position", {bb for bb, _ in pc})
         ctx.ob("position-arm:always-rebuilds", not skip, b.where(b.term_loc(s)),
                "every `position` command rebuilds the board from its own text%s" % ("" if not skip else ": NOT so — some `position` commands are skipped and the engine keeps whatever board it held (e.g. the one its last `go` left behind)"))
-    extra = [show_expr(d, b)[:60] for d, vals, excl, s2, tg in dominating_facts(b, ex, tt) if s2 in loop and s2 != s and
-             not (d[0] == "bin" and d[1] == "Eq" and any(k[0] == "str" for k in (strip_refs(d[2]), strip_refs(d[3]))))]
+    extra = [show_expr(d, b)[:60] for bb, _ in pc[:1] for d in dp.extra_conditions("position", bb)]
     ctx.ob("position-arm:unconditional", not extra, b.where(b.term_loc(s)), "conditions besides the command word: %s" % extra)
+    roots = state_roots(f, b, h, loop)
     for bb, t in pc:
-        dest = t["dest"]
-        al = None
-        # result assigned to the board local (possibly through a temporary and a drop of the old one)
-        boards = [l for l, n in b.names.items() if b.local_ty(l) == "board::BoardState"]
-        assigned = False
-        for loc, st in b.iter_stmts():
-            if st["k"] == "assign" and st["place"]["local"] in boards and not st["place"]["proj"]:
-                e = ex.rvalue(st["rv"], loc)
-                if e[0] == "call" and e[1] == POP and e[3] == b.term_loc(bb):
-                    assigned = True
-        if dest["local"] in boards:
-            assigned = True
+        assigned = _becomes_board(f, b, ex, roots, bb, t, POP)
         ctx.ob("position-arm:board-replaced", assigned, b.where(b.term_loc(bb)), "the result of play_out_position becomes the current board")
-        reads_old = any((operand_alias(b, a) or (None,))[0] in boards for a in t["args"])
+        reads_old = any(_contains_board(f, b, roots, resolve_operand(b, a)) for a in t["args"])
         ctx.ob("position-arm:independent-of-old-board", not reads_old, b.where(b.term_loc(bb)), "play_out_position does not receive the previous board")
 
 
@@ -229,45 +456,46 @@ def r16_4(ctx):
                     ctx.ob("find_and_play_best_move:thread-shares:%d" % i, False, b.where(loc), "the search thread shares `%s` with the command loop" % ty)
 
 
+def _state_touches(f, b, roots, region):
+    """Definition / borrow sites of the state locals inside a region."""
+    rd = b.reaching()
+    out = []
+    for l in roots:
+        for loc, k in rd.all_sites(l):
+            if loc[0] in region:
+                out.append((l, loc, k))
+    return out
+
+
 def r16_5(ctx):
     """Arms other than position/go leave the carried state alone."""
     f = ctx.facts
     b = f.body(LOOP_FN)
     ex = Exprs(b)
     h, loop = command_loop(b, ex)
-    am = arms(b, ex, loop)
-    state_locals = [l for l, n in b.names.items() if b.local_ty(l) in STATE_TYPES]
-    rd = b.reaching()
-    for cmd, (s, tt, ft) in sorted(am.items()):
+    dp = dispatch(f, b, ex, h, loop)
+    roots = state_roots(f, b, h, loop)
+    for cmd, s in sorted(dp.words.items()):
         if cmd in ("position", "go"):
             continue
-        region = {x for x in loop if b.edge_dominates((s, tt), x) or x == tt}
+        region = dp.region(cmd)
         touched = []
-        for l in state_locals:
-            for loc, k in rd.all_sites(l):
-                if loc[0] in region:
-                    # an idempotent reset (`draw_table.clear()`) in another arm is harmless: `position`
-                    # clears and rebuilds anyway; it is the one modification tolerated here
-                    uses_clear = any(b.term(x)["k"] == "call" and (callee_of(b.term(x)) or "").endswith("DrawTable::clear") and
-                                     (operand_alias(b, b.term(x)["args"][0]) or (None,))[0] == l for x in region)
-                    only_clear = k == "borrow" and uses_clear and not any(
-                        b.term(x)["k"] == "call" and (operand_alias(b, a) or (None,))[0] == l and not (callee_of(b.term(x)) or "").endswith("DrawTable::clear")
-                        for x in region for a in b.term(x).get("args", []))
-                    if only_clear:
-                        continue
-                    touched.append((b.names[l], loc))
+        for l, loc, k in _state_touches(f, b, roots, region):
+            # an idempotent reset (`draw_table.clear()`) in another arm is harmless: `position`
+            # clears and rebuilds anyway; it is the one modification tolerated here
+            def on_l(x, a):
+                ro = resolve_operand(b, a)
+                return ro is not None and ro[0] == l
+            uses_clear = any(b.term(x)["k"] == "call" and (callee_of(b.term(x)) or "").endswith("DrawTable::clear") and on_l(x, b.term(x)["args"][0]) for x in region)
+            only_clear = k == "borrow" and uses_clear and not any(
+                b.term(x)["k"] == "call" and on_l(x, a) and not (callee_of(b.term(x)) or "").endswith("DrawTable::clear")
+                for x in region for a in b.term(x).get("args", []))
+            if only_clear:
+                continue
+            touched.append((b.names[l], loc))
         ctx.ob("arm(%s):leaves-state-alone" % cmd, not touched, b.where(b.term_loc(s)),
                "`%s` modifies: %s" % (cmd, [(n, b.where(loc)) for n, loc in touched]))
-    ctx.floor("command arms", len(am), 6)
-
-
-def default_region(b, ex, loop, am):
-    reg = set(loop)
-    for cmd, (s, tt, ft) in am.items():
-        if ft is None:
-            return set()
-        reg &= {x for x in loop if b.edge_dominates((s, ft), x) or x == ft}
-    return reg
+    ctx.floor("command arms", len(dp.words), 6)
 
 
 def r17_1(ctx):
@@ -277,19 +505,13 @@ def r17_1(ctx):
     ctx.note_fn(LOOP_FN)
     ex = Exprs(b)
     h, loop = command_loop(b, ex)
-    am = arms(b, ex, loop)
-    reg = default_region(b, ex, loop, am)
-    # blocks of the default arm proper: stop at the common join that every arm reaches
-    join = {x for x in reg if all(b.reaches(tt, x, removed_nodes={h}) for _, (s, tt, ft) in am.items() if not exits_process(b, tt))}
-    reg -= join
+    dp = dispatch(f, b, ex, h, loop)
+    reg = dp.region(None) if dp.words else set()
     ctx.ob("default-arm:found", bool(reg), b.file, "%d blocks are reached only when no command matches" % len(reg), reason="anchor-missing", nontrivial=False)
-    state_locals = [l for l, n in b.names.items() if b.local_ty(l) in STATE_TYPES]
-    rd = b.reaching()
+    roots = state_roots(f, b, h, loop)
     bad = []
-    for l in state_locals:
-        for loc, k in rd.all_sites(l):
-            if loc[0] in reg:
-                bad.append("writes %s at %s" % (b.names[l], b.where(loc)))
+    for l, loc, k in _state_touches(f, b, roots, reg):
+        bad.append("writes %s at %s" % (b.names[l], b.where(loc)))
     for x in sorted(reg):
         t = b.term(x)
         if t["k"] == "call":
@@ -307,26 +529,28 @@ def r17_2(ctx):
     b = f.body(LOOP_FN)
     ex = Exprs(b)
     h, loop = command_loop(b, ex)
-    am = arms(b, ex, loop)
-    if "isready" not in am:
+    dp = dispatch(f, b, ex, h, loop)
+    if "isready" not in dp.words:
         ctx.ob("arm(isready):present", False, b.file, "no `isready` arm", reason="anchor-missing")
     else:
-        s, tt, ft = am["isready"]
+        s = dp.words["isready"]
         sends = {bb for bb, t in b.iter_calls(callee=SEND) if strip_refs(ex.call_args(bb)[0]) == ("str", "readyok")}
-        # from the arm, the loop header cannot be reached without passing the send
-        ok = bool(sends) and not b.reaches(tt, h, removed_nodes=sends) and tt not in (h,) or tt in sends
-        if tt in sends:
-            ok = True
+        # under `isready` the loop header cannot be reached again without passing the send
+        ok = dp.always_passes("isready", sends)
         ctx.ob("arm(isready):answers-readyok", ok, b.where(b.term_loc(s)), "every path through the isready arm prints `readyok`")
         # and the arm is not guarded by anything but the command word
-        extra = [d for d, vals, excl, s2, tg in dominating_facts(b, ex, tt) if s2 in loop and s2 != s and
-                 not (d[0] == "bin" and d[1] == "Eq" and any(k[0] == "str" for k in (strip_refs(d[2]), strip_refs(d[3]))))]
-        ctx.ob("arm(isready):unconditional", not extra, b.where(b.term_loc(s)), "conditions besides the command word: %s" % [show_expr(d, b)[:50] for d in extra])
-    if "quit" not in am:
+        arm_sends = [x for x in sends if x in dp.reach("isready")]
+        extra = [d for x in arm_sends[:1] for d in dp.extra_conditions("isready", x)]
+        ctx.ob("arm(isready):unconditional", not extra and bool(arm_sends), b.where(b.term_loc(s)), "conditions besides the command word: %s" % [show_expr(d, b)[:50] for d in extra])
+    if "quit" not in dp.words:
         ctx.ob("arm(quit):present", False, b.file, "no `quit` arm", reason="anchor-missing")
     else:
-        s, tt, ft = am["quit"]
-        ctx.ob("arm(quit):exits", exits_process(b, tt), b.where(b.term_loc(s)), "every path through the quit arm ends the process")
+        s = dp.words["quit"]
+        b2, _ = dp.spec("quit")
+        reg = dp.region("quit")
+        # under `quit`: every path from the word test on ends the process
+        ok = bool(reg) and all(exits_process(b2, x) for x in reg if not any(p in reg for p in b2.pred.get(x, [])))
+        ctx.ob("arm(quit):exits", ok, b.where(b.term_loc(s)), "every path through the quit arm ends the process")
 
 
 def _from_split(ex, v):
@@ -375,12 +599,11 @@ def r17_6(ctx):
     ctx.note_fn(LOOP_FN)
     ex = Exprs(b)
     h, loop = command_loop(b, ex)
-    am = arms(b, ex, loop)
+    dp = dispatch(f, b, ex, h, loop)
     own = set()
     for cmd in ("position", "go"):
-        if cmd in am:
-            s, tt, ft = am[cmd]
-            own |= {x for x in loop if b.edge_dominates((s, tt), x) or x == tt}
+        if cmd in dp.words:
+            own |= dp.region(cmd)
     region = {x for x in loop if x not in own and x in b.reachable}
     iv = None
     n = 0
